@@ -5,7 +5,7 @@ Decided: (R1) Coverage typestate RAW -> QF -> TF: every coverage object handed t
 used as receiver of the threshold filter, or consulted by the allele-support test has passed the
 quality filter first; (R2) the quality predicate and the `filtered` store, folded on grids; the
 indel realigner receives both thresholds; (R3) the support threshold formula and both stage
-closures; (R4) novel variants of the major model range over positively supported catalogue variants.
+closures. (The former R4 -- novel variants range over positively supported catalogue variants -- is decided by C02.R9 on an instance with unobserved catalogue variants.)
 Not decided: metamorphic invariance of solver results.
 """
 
@@ -508,45 +508,10 @@ def r3(repo, res):
            key="closure:minor stage, two structures")
 
 
-def r4(repo, res):
-    f = repo.func("major::solve_major_model")
-    res.analysed(f)
-    Mut = collections.namedtuple("Mutation", ["pos", "op"])
-    comp = [n for n in walk_local(f) if isinstance(n, ast.Assign) and isinstance(n.value, ast.SetComp)
-            and "is_functional" in ast.unparse(n.value)]
-    if not comp:
-        res.err("C15.R4", "novel-candidate set (functional variants present in the sample) not found in solve_major_model")
-        return
-    st = comp[0]
-    cov = {Mut(1, "A>G"): 5, Mut(2, "C>T"): 0, Mut(3, "insT"): 7}
-    gene = Obj(mutations={(1, "A>G"): 0, (2, "C>T"): 0, (3, "insT"): 0, (4, "G>A"): 0},
-               is_functional=lambda m: m[0] != 3)
-    try:
-        # every parameter of the routine is bound (a guard added to the comprehension may consult any of them)
-        struct_ = Obj(position_cn=lambda p: 2, solution={"1": 2}, max_cn=lambda: 2, _solution_nice=lambda: "S")
-        env_ = {a_.arg: None for a_ in f.args.args + f.args.kwonlyargs}
-        env_.update({"gene": gene, "coverage": collections.defaultdict(int, cov), "cn_solution": struct_})
-        v = Evaluator(env_, funcs={"Mutation": Mut}).ev(st.value)
-    except (Unfoldable, Raised) as e:
-        res.err("C15.R4", f"novel-candidate set outside folding language: {e}")
-        return
-    res.ob("C15.R4", f, st, set(v) == {Mut(1, "A>G")},
-           expected="candidates = catalogue core variants with positive support in the (filtered) coverage",
-           found=f"{sorted(v)} from supports {dict(cov)}",
-           clause="every variant flagged as novel is supported by qualifying reads", key="novel-candidates")
-    name = st.targets[0].id
-    fam = [n for n in walk_local(f) if isinstance(n, ast.Assign) and isinstance(n.value, ast.DictComp)
-           and "vtype='B'" in ast.unparse(n.value) and "N_" in ast.unparse(n.value)]
-    ok = bool(fam) and ast.unparse(fam[0].value.generators[0].iter) == name
-    res.ob("C15.R4", f, fam[0] if fam else f, ok, expected=f"novel-variant flags range over `{name}` only",
-           found=ast.unparse(fam[0].value.generators[0].iter) if fam else "family not found", key="novel-family-domain")
-
-
 def run(repo, res):
     r1(repo, res)
     r2(repo, res)
     r3(repo, res)
-    r4(repo, res)
     res.note("C15: long-read indel counters (_indel_sites for sam_long_reads) and the phase table are not quality-filtered "
              "in the source; outside the property's quantifier (evidence tables)")
 
@@ -589,8 +554,6 @@ MUTANTS = [
     dict(name="R3 major closure: or instead of and", module="major", expect="C15.R3",
          old="            cond = cond and cov.basic_filter(\n                mut, cn=cn_solution.position_cn(mut.pos) + 0.5",
          new="            cond = cond or cov.basic_filter(\n                mut, cn=cn_solution.position_cn(mut.pos) + 0.5"),
-    dict(name="R4 novel candidates without support test", module="major", expect="C15.R4",
-         old="        if gene.is_functional(m) and coverage[Mutation(*m)] > 0", new="        if gene.is_functional(m)"),
     dict(name="R3 major closure consults the raw coverage", module="major", expect="C15.R3",
          old="            cond = cond and cov.basic_filter(\n                mut, cn=cn_solution.position_cn(mut.pos) + 0.5",
          new="            cond = cond and coverage.basic_filter(\n                mut, cn=cn_solution.position_cn(mut.pos) + 0.5"),
